@@ -11,13 +11,14 @@ import ecc_scen as es
 import ecc_util as eu
 from common import hx
 
-LEAN_MODULES = ["Pff.Props.C09", "Pff.Props.Bridge", "Pff.Props.Chain"]
+LEAN_MODULES = ["Pff.Props.C09", "Pff.Props.Bridge", "Pff.Props.Chain", "Pff.Props.NonVacuity"]
 PROP_MODULE = "Pff.Props.C09"
 THEOREMS = ["Pff.Entry.C09_fields_roundtrip", "Pff.Entry.C09_size_roundtrip", "Pff.Entry.C09_size_digits", "Pff.Entry.C09_intra_roundtrip",
             "Pff.Entry.C09_intra_repair_header", "Pff.Entry.C09_intra_repair_whole",
             "Pff.Bridge.C09_intra_block_premise_A",
             "Pff.Bridge.C09_intra_block_premise_B",
-            "Pff.Chain.C09_run_metadata_within_capacity"]
+            "Pff.Chain.C09_run_metadata_within_capacity",
+            "Pff.NonVacuity.pristine_metaWithinCapacity"]
 MODELLED = [("pyFileFixity/header_ecc.py", "entry_fields"), ("pyFileFixity/header_ecc.py", "ecc_correct_intra"),
             ("pyFileFixity/structural_adaptive_ecc.py", "entry_fields"), ("pyFileFixity/structural_adaptive_ecc.py", "ecc_correct_intra_stream"),
             ("pyFileFixity/structural_adaptive_ecc.py", "compute_ecc_hash_from_string")]
